@@ -189,14 +189,14 @@ impl Property for C03 {
         let sched = PartCfg {
             name: "schedule",
             rule: "one generated history run on replica A without any commit and on replica B with commits (optionally followed by clearCaches or stop/reopen) at generated boundaries or every k-th op; all responses and the observation every 5 ops must be identical. Non-trivial = B committed at least once, blocks followed the commit and >= 2 transactions succeeded",
-            cases: ctx.tier.pick(300, 6000),
+            cases: ctx.tier.pick(600, 8000),
             max_shrink_iters: ctx.tier.pick(250, 1000),
         };
         let mut found = explore(ctx, ev, &sched, sched_strategy, check_sched);
         let lossy = PartCfg {
             name: "lossy",
             rule: "generated histories with commits, clearCaches (also mid-block) and stop/reopen without commit; right after every lossy step and at the end the instance must equal a fresh instance fed only the durable chain + what followed, including replayed responses. Non-trivial = a lossy step that dropped uncommitted state-changing work after at least one commit",
-            cases: ctx.tier.pick(300, 6000),
+            cases: ctx.tier.pick(600, 8000),
             max_shrink_iters: ctx.tier.pick(250, 1000),
         };
         found.extend(explore(ctx, ev, &lossy, lossy_strategy, check_lossy));
